@@ -100,7 +100,7 @@ def run(tier: str, seed: int) -> int:
         replay_states(run_, res, ex, jnp, jax, half=half)
         tlc.cleanup(res)
     check_random_dense(run_, ex, jnp, rng)
-    shutil.rmtree(tlc.SCRATCH, ignore_errors=True)
+    tlc.cleanup_mine()
     run_.rule = ("one case per terminal TLC state: (term, D, N, sum of <= degree real basis functions incl. channel assignment, cos/sin, modes inside "
                  "the band, one shell outside and Nyquist); distinct_nontrivial counts distinct (term, D, N) tables plus dense-state cases; by "
                  "multilinearity the basis sums fix the operator for every state of the grid")
